@@ -152,11 +152,32 @@ def run_chunk(cases):
                     w.hooks.setdefault(base + k, []).append(lambda: w.vanish(victim))
                     try:
                         chain = [x.pid for x in bounded(p2.parents)]
+                    except ps.NoSuchProcess as ex:
+                        # an ancestor already on the chain is asked for its parent after it went:
+                        # that is parent() of a vanished process, and names that process
+                        chain = full if ex.pid == victim else "NoSuchProcess(pid=%r)" % (ex.pid,)
                     finally:
                         w.hooks.clear()
                     if chain not in (full, cut):
                         bad.append("parents() with ancestor %d vanishing at access %d -> %r, must be %r or %r"
                                    % (victim, k, chain, full, cut))
+                # parent() itself answers for a live caller whatever happens to the parent meanwhile
+                if e["parent"] == victim:
+                    for kk in range(1, 13):
+                        build(w, e["tbl"])
+                        ps.pids()
+                        p3 = ps.Process(s)
+                        base = w.acc
+                        w.hooks.setdefault(base + kk, []).append(lambda: w.vanish(victim))
+                        try:
+                            par = bounded(p3.parent)
+                            if par is not None and par.pid != victim:
+                                bad.append("parent() with the parent %d vanishing at access %d -> pid %r" % (victim, kk, par.pid))
+                        except ps.NoSuchProcess as ex:
+                            bad.append("parent() of a live caller raised NoSuchProcess(pid=%r) with the parent %d vanishing at access %d"
+                                       % (ex.pid, victim, kk))
+                        finally:
+                            w.hooks.clear()
         except Hang:
             bad.append("a tree walk did not return within %d s" % BUDGET)
         except Exception as ex:  # noqa: BLE001
